@@ -17,6 +17,18 @@ def content(r, kind, n):
 
 
 def build(data, block, fault=None, with_hash=True, sid="sid-1"):
+    socks = block == "socks"
+    if socks:
+        # SOCKS5 bytestream, sender's own SOCKS5 server as the only stream host, reached through a tampering TCP hop
+        steps = [wire.client(c=0, jid=A_J, managers=["transfer"], transferMethods="socks"), wire.client(c=1, jid=B_J, managers=["transfer"], transferMethods="any")]
+        steps += wire.login_sasl(c=0, bind_jid=A_J) + wire.login_sasl(c=1, bind_jid=B_J)
+        steps += [dict(op="wait_signal", name="connected", c=0), dict(op="wait_signal", name="connected", c=1), dict(op="settle", quiet=8)]
+        steps.append(dict(op="sendFile", c=0, to=B_J, data=data.hex(), sid=sid, withHash=with_hash))
+        steps.append(dict(op="route", timeout=4000, quiet=250, tamper=dict(fault or {}, socks=True, sid=sid)))
+        steps.append(dict(op="wait_signal", name="recvJobFinished", c=1, optional=True, timeout=4000, fromSeq=0))
+        steps.append(dict(op="wait_signal", name="sendJobFinished", c=0, optional=True, timeout=2000, fromSeq=0))
+        steps.append(dict(op="settle", quiet=20))
+        return steps
     steps = [wire.client(c=0, jid=A_J, managers=["transfer"], ibbBlockSize=block), wire.client(c=1, jid=B_J, managers=["transfer"], ibbBlockSize=block)]
     steps += wire.login_sasl(c=0, bind_jid=A_J) + wire.login_sasl(c=1, bind_jid=B_J)
     steps += [dict(op="wait_signal", name="connected", c=0), dict(op="wait_signal", name="connected", c=1), dict(op="settle", quiet=8)]
@@ -35,7 +47,12 @@ def judge(data, block, fault, with_hash, out, viol, stats):
     rj = [e for e in j if e["ev"] == "cli_sig" and e["name"] == "recvJobFinished"]
     sj = [e for e in j if e["ev"] == "cli_sig" and e["name"] == "sendJobFinished"]
     injected = any(e["ev"] == "fault_injected" for e in j)
-    nblocks = (len(data) + block - 1) // block
+    socks = block == "socks"
+    nblocks = 1 if socks else (len(data) + block - 1) // block
+    if socks:
+        stats["socks5_transfers"] += 1
+        if any(e["ev"] == "socks_hop" for e in j):
+            stats["socks5_through_hop"] += 1
     w = {"size": len(data), "block_size": block, "blocks": nblocks, "fault": fault, "hash_announced": with_hash, "sender": [(e["error"], e["state"]) for e in sj],
          "receiver": [(e["error"], e["state"], len(e["data"]) // 2) for e in rj], "content_sha1": hashlib.sha1(data).hexdigest()}
     stats["transfers"] += 1
@@ -47,7 +64,10 @@ def judge(data, block, fault, with_hash, out, viol, stats):
         viol.append(("job-finished-twice", "a transfer job reported 'finished' more than once", w))
     if recv_ok and got != data:
         kind = (fault or {}).get("kind", "none")
-        viol.append(("success-with-wrong-bytes fault=%s hash=%s" % (kind, with_hash), "the receiver reports success but holds %d bytes that differ from the %d bytes sent" % (len(got), len(data)), w))
+        if socks and kind == "flip" and not with_hash:
+            stats["socks5_flip_without_hash_not_detectable"] += 1   # nothing in the protocol protects the content then: not judged
+            return
+        viol.append(("success-with-wrong-bytes%s fault=%s hash=%s" % (" socks5" if socks else "", kind, with_hash), "the receiver reports success but holds %d bytes that differ from the %d bytes sent" % (len(got), len(data)), w))
         return
     if not fault or not injected:
         if not fault:
@@ -56,16 +76,20 @@ def judge(data, block, fault, with_hash, out, viol, stats):
             if len(data) == 0:
                 stats["empty_file_not_transferred"] += 1   # an empty file is refused before any stream is opened: not judged
                 return
-            viol.append(("fault-free-transfer-fails %s" % size_class, "a transfer over a healthy link did not end with both sides reporting success and identical bytes", w))
+            viol.append(("fault-free-transfer-fails %s%s" % ("socks5 " if socks else "", size_class), "a transfer over a healthy link did not end with both sides reporting success and identical bytes", w))
         else:
             stats["fault_free_ok"] += 1
             stats["class:" + size_class] += 1
+            if socks:
+                stats["socks5_fault_free_ok"] += 1
     else:
         stats["faulted"] += 1
         if recv_ok:
             stats["faulted_but_bytes_intact"] += 1   # e.g. a rejected duplicate: the bytes are right, success is acceptable
         else:
             stats["fault_detected"] += 1
+            if socks:
+                stats["socks5_fault_detected"] += 1
 
 
 def worker(args):
@@ -124,6 +148,25 @@ def main(tier, replay=None):
                     jobs.append((size, b, "random", f, True))
                     if kind in ("drop", "earlyclose", "duplicate"):
                         jobs.append((size, b, "random", f, False))
+    # SOCKS5 bytestreams: fault-free matrix, then single faults in the byte stream behind the SOCKS5 negotiation
+    for size in (1, 2, 4095, 4096, 4097, 65536, 200000) if tier == "quick" else (1, 2, 3, 100, 4095, 4096, 4097, 8192, 65535, 65536, 65537, 200000, 1048577):
+        for ck in ("zeros", "random", "all"):
+            jobs.append((size, "socks", ck, None, True))
+        jobs.append((size, "socks", "random", None, False))
+    for size in (1, 300, 70000) if tier == "quick" else (1, 2, 300, 5000, 70000, 300000):
+        offs = sorted(set([0, size // 2, size - 1]))
+        for kind in ("drop", "flip", "duplicate", "earlyclose", "append"):
+            for at in offs:
+                for wh in (True, False):
+                    for ln in ((1,) if tier == "quick" else (1, 17)):
+                        if kind == "earlyclose" and at == 0 and size == 1:
+                            pass
+                        jobs.append((size, "socks", "random", {"kind": kind, "at": at, "len": min(ln, size - at) if kind != "append" else ln, "bit": (at * 3) % 8}, wh))
+    if tier != "quick":
+        for _ in range(2000):
+            size = r.choice([1, 10, 1000, 5000, 100000])
+            at = r.randrange(size)
+            jobs.append((size, "socks", "random", {"kind": r.choice(["drop", "flip", "duplicate", "earlyclose", "append"]), "at": at, "len": r.randrange(1, min(64, size - at) + 1), "bit": r.randrange(8)}, r.random() < 0.7))
     if tier != "quick":
         for _ in range(3000):
             b = r.choice([1, 3, 7, 64, 4096])
@@ -134,7 +177,7 @@ def main(tier, replay=None):
             jobs.append((size, b, "random", f, r.random() < 0.8))
     W = vf.NPROC
     # long transfers first so that they overlap with the short ones
-    jobs.sort(key=lambda j: -j[0] // max(1, j[1]))
+    jobs.sort(key=lambda j: -j[0] // max(1, j[1] if j[1] != "socks" else 4096))
     with ProcessPoolExecutor(max_workers=W) as pool:
         res = list(pool.map(worker, [(w, jobs[w::W]) for w in range(W)]))
     stats = collections.Counter()
@@ -148,7 +191,9 @@ def main(tier, replay=None):
            "rule": "in-band transfers between two real clients with QXmppTransferManager, relayed by the fake server: sizes {0,1,b-1,b,b+1,2b,3b+5} x block sizes {1,7,4096} x contents {zeros, random, all byte values} with and without "
                    "announced hash, transfers of more than 65536 blocks (block size 1), and every single fault (drop, duplicate, swap with next, bit flip, early close, wrong session id, wrong sender, wrong sequence number) at every block "
                    "position of short transfers; oracle: receiver success => identical bytes; fault-free => both sides succeed with identical bytes",
+           "socks5": "SOCKS5 bytestream transfers (the sender's own SOCKS5 server as stream host, reached by the receiver through a tampering TCP hop the relay substitutes in the stream-host offer): fault-free size/content matrix "
+                     "with and without hash; single faults in the payload behind the SOCKS5 negotiation (drop, bit flip, duplicate, early close, appended bytes) at offsets {0, middle, last}; a flipped bit without an announced hash is undetectable by design and not judged",
            "fault_enumeration": "exhaustive per short transfer", "observed": dict(stats), "samples": [{"size": 40, "block_size": 7, "fault": {"kind": "swap", "at": 2}}]}
-    floors = {"fault_free_ok": stats["fault_free_ok"] > 20, "faults": stats["faulted"] > 50, "wrap_case": stats["class:blocks>65536"] > 0}
-    V.finish(cov, "fault_enumeration", ["block sizes other than 4096 need the QXMPP_VERIF_HOOKS setter (the manager has no public one)", "SOCKS5 bytestreams are not exercised (only in-band)",
+    floors = {"fault_free_ok": stats["fault_free_ok"] > 20, "faults": stats["faulted"] > 50, "wrap_case": stats["class:blocks>65536"] > 0, "socks5_fault_free": stats["socks5_fault_free_ok"] >= 20, "socks5_hop_used": stats["socks5_through_hop"] >= 20, "socks5_faults_detected": stats["socks5_fault_detected"] >= 10}
+    V.finish(cov, "fault_enumeration", ["block sizes other than 4096 need the QXMPP_VERIF_HOOKS setter (the manager has no public one)", "SOCKS5: direct stream hosts only (no XEP-0065 proxy service), both clients on this machine",
                                         "faults are applied to IBB <data/> stanzas by the relaying server"], floors)
